@@ -1,7 +1,7 @@
-(* C17: facts about the translated kernel K41 (clean_id as a character map), re-checked against the
+(* C17: facts about the translated kernel K42 (clean_id as a character map), re-checked against the
    tables generated from the source on every run. *)
 From Coq Require Import List NArith Bool Lia.
-From VerifGen Require Import K41.
+From VerifGen Require Import K42.
 Import ListNotations.
 Open Scope N_scope.
 
